@@ -4,6 +4,7 @@ import math
 
 from hypothesis import strategies as st
 
+from vf import randomctl
 from vf.engine import Skip, Violation, require
 from vf.tree import attach
 
@@ -12,7 +13,7 @@ LEVEL = "exploration"
 TECHNIQUE = "exhaustive enumeration for small n + Hypothesis-sampled rank/successor relations + end-to-end spy on the DBAL kernel"
 RULE = (
     "exhaustive: every (n,k) with n<=N_EX, k<=4, whole index range compared with sorted(descending itertools.combinations); "
-    "sampled: n in 41..6000, k in 1..4, index biased to first/last/C(m,k) boundaries, checked by rank(unrank(i))==i, "
+    "sampled: n in 41..6000 (one case in sixteen up to 2**19, thorough 2**21), k in 1..4, runs of 40 consecutive block starts at n = 20000..300000 (thorough 2**21), index biased to first/last/C(m,k) boundaries, checked by rank(unrank(i))==i, "
     "strict descent, range and colex-successor; kernel: recorded triples of dbal_fast_gauss_scoring_vectorized for "
     "n in 3..40 and budgets around C(n,3); behavioural kernel cases (distance weight 1, 2, 8 or 0.5; with a non-default weight the samples form two far-apart groups of near-identical predictions, distances spanning 10^-9..1): for n<=6 the score must equal the estimator over SOME set of min(budget,C(n,3)) distinct triples "
     "(subset search), and for n in 30..400 a scripted generator hands the kernel indices at the C(a,3) block boundaries and the score must equal the estimator over the "
@@ -29,17 +30,21 @@ ASSUMPTIONS = [
 
 def budgets(tier):
     if tier == "quick":
-        return {"examples": 6000, "max_s": 70, "shrink_s": 15, "shards": 1}
+        return {"examples": 4500, "max_s": 85, "shrink_s": 15, "shards": 1}
     return {"examples": 60000, "max_s": 600, "shrink_s": 60, "shards": 16}
 
 
 N_EX = {"quick": 40, "thorough": 70}
+_MAX_EXP = [19]  # generated sizes go up to 2**19 in the quick tier and 2**21 in the thorough tier (set in strategy())
 
 
 def exhaustive(tier):
     for n in range(0, N_EX[tier] + 1):
         for k in range(0, 5):
             yield {"kind": "all", "n": n, "k": k}
+    # runs of consecutive block starts C(m,k) (and their neighbours) at sizes far beyond a scorer's: 2**14 .. 2**21 items
+    for k, n in [(2, 70001), (3, 20000), (3, 300000), (4, 20000), (4, 70001)] + ([(3, 2**20 + 7), (3, 2**21 - 3), (4, 300000), (2, 2**21), (4, 2**20 + 7), (3, 600011)] if tier != "quick" else []):
+        yield {"kind": "blocks", "n": n, "k": k, "m0": n - 47, "count": 40}
     for n in range(3, 41 if tier == "thorough" else 22):
         c = math.comb(n, 3)
         for budget in sorted({1, 2, c - 1, c, c + 5, max(1, c // 2)}):
@@ -50,15 +55,19 @@ def exhaustive(tier):
 @st.composite
 def _sampled(draw):
     k = draw(st.sampled_from([1, 2, 2, 3, 3, 3, 4, 4]))
-    n = draw(st.integers(41, 6000))
+    # "for all n": mostly the sizes a scorer meets, one case in sixteen a magnitude drawn up to 2**21 (the index then needs up to 80 bits)
+    n = draw(st.one_of(*([st.integers(41, 6000)] * 15 + [st.integers(13, _MAX_EXP[0]).flatmap(lambda e: st.integers(2 ** (e - 1), 2**e))])))
     total = math.comb(n, k)
     mode = draw(st.integers(0, 3))
+    big = n > 6000
+    if big and mode == 0:
+        mode = 2  # (the walk from the top to a low index costs O(n) per level: at these sizes the indices stay in the upper blocks)
     if mode == 0:
         i = draw(st.integers(0, min(3, total - 1)))
     elif mode == 1:
         i = total - 1 - draw(st.integers(0, min(3, total - 1)))
     elif mode == 2:
-        m = draw(st.integers(k, n))
+        m = draw(st.integers(max(k, n - 300), n)) if big else draw(st.one_of(st.integers(k, n), st.integers(max(k, n - 300), n)))
         i = min(total - 1, max(0, math.comb(m, k) + draw(st.integers(-2, 2))))
     else:
         i = draw(st.integers(0, total - 1))
@@ -70,7 +79,7 @@ def _kernel(draw):
     n = draw(st.integers(3, 40))
     c = math.comb(n, 3)
     budget = draw(st.one_of(st.integers(1, c + 5), st.sampled_from([c - 1, c, c + 1])))
-    return {"kind": "kernel", "n": n, "budget": max(1, budget), "seed": draw(st.integers(0, 2**32 - 1))}
+    return {"kind": "kernel", "n": n, "budget": max(1, budget), "seed": draw(st.integers(0, 2**32 - 1)), "stutter": draw(randomctl.stutter_patterns())}
 
 
 @st.composite
@@ -81,7 +90,7 @@ def _kernel_subset(draw):
         budget = draw(st.sampled_from([1, 2, 18, 19, 20, 25]))
     else:
         budget = draw(st.integers(1, c + 2))
-    return {"kind": "kernel_subset", "n": n, "budget": budget, "seed": draw(st.integers(0, 2**32 - 1))}
+    return {"kind": "kernel_subset", "n": n, "budget": budget, "seed": draw(st.integers(0, 2**32 - 1)), "stutter": draw(randomctl.stutter_patterns())}
 
 
 @st.composite
@@ -112,7 +121,16 @@ def _kernel_many(draw):
 
 
 def strategy(tier):
+    _MAX_EXP[0] = 19 if tier == "quick" else 21
     return st.one_of(_sampled(), _sampled(), _sampled(), _kernel(), _kernel_subset(), _kernel_scripted(), _scorer_subset_case(), _kernel_many())
+
+
+def _stutter(case):
+    """the generator handed to the scoring code: numpy's, or (drawn, or by the seed's residue for fixed cases) one whose consecutive
+    draws sometimes coincide - the sampled triples must be pairwise distinct whatever the generator yields"""
+    if "stutter" in case:
+        return case["stutter"]
+    return [None, None, [0, 1], [0, 0, 1, 1, 0]][case.get("seed", 0) % 4]
 
 
 def _unrank3(i):
@@ -218,7 +236,7 @@ def _scorer_subset(case, gd):
             for j in range(i):
                 dm_small.add_value(i, j, d[i, j])
         scorer.score(plates=plates, distance_matrix=dm_small, samples=small, rng=np.random.default_rng(case["seed"] + 2), progress_bar=False)
-    got = scorer.score(plates=plates, distance_matrix=dm, samples=holder, rng=np.random.default_rng(case["seed"] + 1), progress_bar=False)
+    got = scorer.score(plates=plates, distance_matrix=dm, samples=holder, rng=randomctl.make_rng(case["seed"] + 1, _stutter(case)), progress_bar=False)
     c = math.comb(n, 3)
     b = min(budget, c)
     all_triples = [tuple(sorted(x, reverse=True)) for x in itertools.combinations(range(n), 3)]
@@ -264,14 +282,14 @@ def _behavioural_kernel(case, gd):
     kw = {} if df == 1.0 else {"distance_factor": df}
     if case["kind"] == "kernel_all_many":
         # the budget covers all C(n,3) > 1024 triples: the score is the estimator over every triple exactly once
-        score = float(f(preds[None], var[None], d, np.random.default_rng(case["seed"] + 1), max_combos=case["budget"], **kw)[0])
+        score = float(f(preds[None], var[None], d, randomctl.make_rng(case["seed"] + 1, _stutter(case)), max_combos=case["budget"], **kw)[0])
         all_triples = [tuple(sorted(x, reverse=True)) for x in itertools.combinations(range(n), 3)]
         expect = _lse(_triple_terms(preds, var, d, all_triples, df))
         require(abs(score - expect) <= 1e-9 * (1 + abs(expect)), "kernel.all_triples_once", lambda: "n=%d budget=%d: the score is %r, the estimator over each of the %d triples exactly once is %r (exp difference x count: %r)" % (n, case["budget"], score, c, expect, (math.exp(score - expect) - 1) * c))
         return {"nontrivial": True, "labels": ["kernel_all_many.triples>=%d" % (1024 * (c // 1024))]}
     if case["kind"] == "kernel_subset":
         b = min(case["budget"], c)
-        score = float(f(preds[None], var[None], d, np.random.default_rng(case["seed"] + 1), max_combos=case["budget"], **kw)[0])
+        score = float(f(preds[None], var[None], d, randomctl.make_rng(case["seed"] + 1, _stutter(case)), max_combos=case["budget"], **kw)[0])
         all_triples = [tuple(sorted(x, reverse=True)) for x in itertools.combinations(range(n), 3)]
         terms = _triple_terms(preds, var, d, all_triples, df)
         ok = False
@@ -370,6 +388,15 @@ def check_case(case):
             t2 = tuple(int(x) for x in unrank(i + 1, n, k))
             require(t2 == _successor(t, n), "unrank.successor", lambda: "n=%d k=%d: unrank(%d)=%r, unrank(%d)=%r" % (n, k, i, t, i + 1, t2))
         return {"nontrivial": k >= 2 and 0 < i < total - 1, "labels": ["one.k=%d" % k, "first" if i == 0 else "last" if i == total - 1 else "interior"]}
+    if kind == "blocks":
+        n, k = case["n"], case["k"]
+        for m in range(case["m0"], case["m0"] + case["count"]):
+            for delta in (-1, 0, 1):
+                i = math.comb(m, k) + delta
+                t = tuple(int(x) for x in unrank(i, n, k))
+                require(len(t) == k and all(0 <= x < n for x in t) and all(a > b for a, b in zip(t, t[1:])), "unrank.blocks.descending_in_range", lambda: "n=%d k=%d i=C(%d,%d)%+d -> %r" % (n, k, m, k, delta, t))
+                require(_rank(t) == i, "unrank.blocks.rank_roundtrip", lambda: "n=%d k=%d i=C(%d,%d)%+d=%d -> %r, which has rank %d" % (n, k, m, k, delta, i, t, _rank(t)))
+        return {"nontrivial": True, "labels": ["blocks.k=%d" % k, "n>=2^%d" % (n.bit_length() - 1)]}
     if kind == "kernel":
         import numpy as np
 
@@ -390,7 +417,7 @@ def check_case(case):
         np.fill_diagonal(d, 0)
         gd.get_combination_at_sorted_index = spy
         try:
-            attach(gd, "dbal_fast_gauss_scoring_vectorized")(preds, var, d, np.random.default_rng(case["seed"] + 1), max_combos=budget)
+            attach(gd, "dbal_fast_gauss_scoring_vectorized")(preds, var, d, randomctl.make_rng(case["seed"] + 1, _stutter(case)), max_combos=budget)
         finally:
             gd.get_combination_at_sorted_index = orig
         c = math.comb(n, 3)
